@@ -18,13 +18,15 @@ RULE = ("lists of JSON objects in hint position: random key/value trees and fiel
         "non-objects / nested relays / tor hints without Tor; many equal-host entries with incomparable "
         "priorities). Path 1: Transit{Sender,Receiver}.add_connection_hints + connect() on the simulator "
         "(with and without an honest peer listening). Path 2: a dilated pair held in CONNECTING; one "
-        "side's Manager sends the list as a real encrypted connection-hints message. Round trip: hints "
+        "side's Manager sends the list as a real encrypted connection-hints message. Path 3: a dilated pair "
+        "that connects, loses its connection (both ends / follower only), reconnects and stops, with hint "
+        "lists sent at each of those moments (Manager state at rx_HINTS recorded per instance). Round trip: hints "
         "produced by a listener are fed to the peer. Non-trivial = at least one malformed element was "
         "processed; distinct = distinct hint lists.")
 ASSUMPTIONS = ["top-level list elements are JSON objects (dicts); nested positions hold arbitrary JSON values",
                "bool ports and out-of-range integer ports are don't-care for the dial clause"]
-FLOORS = {"quick": {"path1_cases": 600, "path2_cases": 100, "malformed_elements": 1500, "roundtrips": 50, "dials": 400},
-          "thorough": {"path1_cases": 40000, "path2_cases": 3000, "malformed_elements": 90000, "roundtrips": 2500, "dials": 20000}}
+FLOORS = {"quick": {"path1_cases": 600, "path2_cases": 100, "path3_cases": 100, "rx_hints_in_LONELY": 15, "rx_hints_in_CONNECTED": 30, "rx_hints_in_FLUSHING": 8, "malformed_elements": 1500, "roundtrips": 50, "dials": 400},
+          "thorough": {"path1_cases": 40000, "path2_cases": 3000, "path3_cases": 3000, "rx_hints_in_LONELY": 500, "rx_hints_in_CONNECTED": 1000, "rx_hints_in_FLUSHING": 250, "malformed_elements": 90000, "roundtrips": 2500, "dials": 20000}}
 JUNK = [None, True, False, 0, -1, 1.5, 2 ** 40, "", "str", [], [1, 2], {}, {"a": 1}, "direct-tcp-v1", ["direct-tcp-v1"], {"type": "direct-tcp-v1"}]
 HOSTS = ["10.1.1.1", "10.1.1.2", "host.example", "fe80::1", "", " ", "a b", "ünï.example", "x" * 300, "127.0.0.1"]
 
@@ -130,6 +132,7 @@ def cases(tier, seed, prep=None):
     b = seed * 1000003 + 2000000
     out = [{"kind": "transit", "seed": b + i, "honest": i % 3 == 0, "receiver": i % 2 == 0} for i in range(700 if q else 45000)]
     out += [{"kind": "dilation", "seed": b + 100000 + i} for i in range(130 if q else 3500)]
+    out += [{"kind": "dilstates", "seed": b + 150000 + i} for i in range(120 if q else 3500)]
     out += [{"kind": "roundtrip", "seed": b + 200000 + i} for i in range(60 if q else 2600)]
     return out
 
@@ -261,6 +264,132 @@ def run_dilation(spec):
             "sample": {"kind": "dilation", "hints": all_hints[0][:3], "dialled": sorted(dialled, key=repr)[:5], "B_state": dp.mstate("B")}}
 
 
+def run_dilstates(spec):
+    """hint messages reaching a Manager in every state of its life: before the connection, while
+    CONNECTED, right after the peer connection is lost (Follower LONELY / Leader FLUSHING), during the
+    reconnect, and while stopping"""
+    world = World(spec["seed"])
+    rng = world.work_rng
+    r = world.reactor
+    dp = DilatedPair(world, no_listen=(rng.random() < 0.2, False))
+    sch = Scheduler(world, None, strategy=rng.choice(["random", "netfirst", "timersfirst"]), chunking="whole")
+    rx_states = []
+    traced = set()
+
+    def trace_managers():
+        for n in "AB":
+            m = dp.manager(n)
+            if m is not None and n not in traced:
+                traced.add(n)
+
+                def tracer(old, inp, new, n=n):
+                    if inp == "rx_HINTS":
+                        rx_states.append((n, old))
+                    return None
+                m.set_trace(tracer)
+    sch.hook = trace_managers
+    allowed = set()
+    all_hints = []
+    total_bad = [0]
+    errs_before = len(MON.errors)
+
+    def inject(frm):
+        m = dp.manager(frm)
+        if m is None or dp.apps[frm].closed:
+            return
+        hints = gen_hints(rng)
+        ok, bad = allowed_targets(hints)
+        allowed.update(ok)
+        total_bad[0] += bad
+        all_hints.append(json.loads(json.dumps(hints, default=repr)))
+        for (h, p) in ok:       # generated hosts are never this world's own addresses
+            (r.refuse if rng.random() < 0.5 else r.unroutable).add((h, p))
+        try:
+            m.send_hints(hints)
+        except Exception as e:
+            world.escapes.append((world.step, "app", "send_hints", type(e).__name__, repr(e)[:200], ""))
+
+    plan = rng.choice(["early", "connected", "cut", "cut", "cut-one-side", "reconnect", "close"])
+    if plan == "early":
+        for _ in range(rng.randint(1, 3)):
+            sch.run(rng.randint(1, 120))
+            inject(rng.choice("AB"))
+    sch.run(3000, until=dp.both_connected)
+    if not dp.both_connected():
+        world.finish()
+        return {"inconclusive": "dilation did not connect", "violations": []}
+    lead = dp.leader()
+    fol = "B" if lead == "A" else "A"
+    if plan == "connected":
+        for _ in range(rng.randint(1, 3)):
+            inject(rng.choice("AB"))
+            sch.run(rng.randint(1, 60))
+    elif plan in ("cut", "cut-one-side", "reconnect"):
+        link = dp.selected_link()
+        if link is not None:
+            if plan == "cut-one-side":
+                # only the follower notices at once; the leader keeps sending on a dead link
+                from twisted.internet import error
+                from twisted.python import failure
+                from ..simnet import unwrap
+                r.blackhole(link)
+                for e in link.ends:
+                    if dp.party_of(unwrap(e.protocol)) == fol and e.connected:
+                        e.outbuf.clear()
+                        e._connection_lost(failure.Failure(error.ConnectionLost()))
+            else:
+                r.cut(link)
+            # a hints message that was already on its way through the mailbox when the link died
+            inject(lead)
+            if rng.random() < 0.5:
+                inject(fol)
+            if plan == "reconnect":
+                for _ in range(rng.randint(1, 3)):
+                    sch.run(rng.randint(1, 40))
+                    inject(rng.choice("AB"))
+    elif plan == "close":
+        who = rng.choice("AB")
+        other = "B" if who == "A" else "A"
+        dp.apps[who].close()
+        inject(other)
+        sch.run(rng.randint(1, 30))
+        inject(other)
+    sch.run(600)
+    sch.drain(60.0, 20000, until=(lambda: dp.both_connected()) if plan != "close" else None)
+    wit = {"spec": spec, "plan": plan, "hints": all_hints[:3], "rx_states": rx_states, "A_events": dp.a.kinds(), "B_events": dp.b.kinds(),
+           "states": {n: dp.mstate(n) for n in "AB"}, "errors": [e[:3] for e in MON.errors[errs_before:]][:5]}
+    viol = []
+    for n in "AB":
+        app = dp.apps[n]
+        if app.close_calls:
+            continue
+        dead = [k for k in app.kinds() if k.endswith("-err") or k == "closed"]
+        if dead:
+            viol.append({"key": "C20/dilation/wormhole-aborted/%s" % (app.first(dead[0]),),
+                         "msg": "%s died after hints reached its Manager in states %s: %s" % (n, [s for (x, s) in rx_states if x == n], dead[:3]), "witness": wit})
+    for (tn, rep, why, frame) in MON.errors[errs_before:]:
+        if tn == "ValueError" and "invalid hostname" in rep:
+            continue
+        viol.append({"key": "C20/dilation/logged/%s/%s" % (tn, frame), "msg": "%s %s (%s)" % (tn, rep, why), "witness": wit})
+        break
+    for e in world.escapes:
+        viol.append({"key": "C20/dilation/escaped/%s" % e[3], "msg": e[4], "witness": dict(wit, traceback=e[5])})
+        break
+    if plan in ("cut", "cut-one-side", "reconnect", "connected", "early") and not dp.both_connected() and not viol:
+        viol.append({"key": "C20/dilation/not-connected-after-hints/%s-%s" % (dp.mstate("A"), dp.mstate("B")),
+                     "msg": "plan %s: 60 virtual s after the last hints message the Managers are %s/%s" % (plan, dp.mstate("A"), dp.mstate("B")), "witness": wit})
+    dp.a.close()
+    dp.b.close()
+    sch.drain(120.0, 10000, until=lambda: dp.a.closed and dp.b.closed)
+    world.finish()
+    cnt = {"path3_cases": 1, "malformed_elements": total_bad[0], "rx_hints_observed": len(rx_states), "plan_" + plan: 1}
+    for (n, st) in rx_states:
+        cnt["rx_hints_in_" + str(st)] = cnt.get("rx_hints_in_" + str(st), 0) + 1
+    return {"violations": viol, "nontrivial": [plan, sorted(set(map(str, rx_states))), json.dumps(all_hints, sort_keys=True)[:200]] if rx_states else None,
+            "counters": cnt, "sets": {"manager_states_receiving_hints": sorted({str(st) for (n, st) in rx_states})},
+            "sample": {"kind": "dilstates", "plan": plan, "rx_states": rx_states[:8], "states": {n: dp.mstate(n) for n in "AB"}}}
+
+
 def run_roundtrip(spec):
     world = World(spec["seed"])
     rng = world.work_rng
@@ -308,4 +437,4 @@ def run_roundtrip(spec):
 
 
 def run_case(spec):
-    return {"transit": run_transit, "dilation": run_dilation, "roundtrip": run_roundtrip}[spec["kind"]](spec)
+    return {"transit": run_transit, "dilation": run_dilation, "dilstates": run_dilstates, "roundtrip": run_roundtrip}[spec["kind"]](spec)
